@@ -47,7 +47,7 @@ def generate(rng, tier):
         else:
             ts.append([t, [arg]])
     cap = 28 if tier == "quick" else 60
-    strs = gen.strings(rng, ab, extra=3 if tier == "quick" else 6, cap=cap)
+    strs = gen.cap_ambiguity(ab, gen.strings(rng, ab, extra=3 if tier == "quick" else 6, cap=cap))
     return {"property": ID, "grammar": ab, "strings": strs, "schedules": scheds, "transforms": ts}
 
 
